@@ -25,6 +25,7 @@ OBLIGATIONS = [
     "Pkgcore.C25.convert_adds_missing_dirs_partial",
     "Pkgcore.C25.convert_order",
     "Pkgcore.C25.relocatable_of_check",
+    "Pkgcore.C25.pathok_normalised",
 ]
 TRUSTED = [
     "the tar byte format and compression: contract 'the members handed to TarFile.addfile are the members read back, extractfile on a hard link "
@@ -33,8 +34,9 @@ TRUSTED = [
     "os.path.abspath/normpath/join/dirname, str.strip('/'), and the path tests of contentsSet.child_nodes/change_offset (isChild, moveLoc) "
     "re-expressed in Lean (normpath shared with C24) and compared on every sampled path; the relocation theorems use them as primitives "
     "(the specification resolveDir is stated with them, without the code's loops)",
-    "PathOK (name mangling './'+lstrip / abspath(join('/', strip)) is the identity on normalised absolute locations): assumed by the round-trip "
-    "theorems, checked on every sampled location",
+    "locations are normalised absolute paths ('/' + components without '/', '.', '..'): for those PathOK (the name mangling is the identity) and "
+    "LocNorm (child prefix = location + '/') are proved (pathok_normalised); that fs objects and archive_to_fsobj produce such locations is "
+    "pkgcore's/abspath's normalisation, compared on every sampled location",
     "archives with a symlink entry recorded below another symlink entry are outside convert_relocates_partial (the code is order dependent "
     "there: convert_relocates_counterexample, open finding); they are compared model-vs-code and against the live-merge oracle only",
     "mtimes and file contents are opaque tokens in the model; add_missing_directories stamps the current time (ignored in comparisons)",
@@ -639,7 +641,8 @@ LEVEL_TEXT = ("Kernel-checked Lean 4 theorems about a model of fs/tar.py over me
               "current→stable→v2, nests, relative '..' targets), nothing is lost or duplicated, untouched entries stay, and no entry of the result lies "
               "below a symlink of the result (convert_relocates_partial); add_missing_directories creates exactly the missing proper ancestors, for any "
               "set (missing_dirs_exact, convert_adds_missing_dirs_partial); the result is ordered directories / others / files-in-archive-order for "
-              "every archive (convert_order); convert_plain (nothing below a symlink ⇒ only reordering). Outside the guard the full statement is false "
+              "every archive (convert_order); convert_plain (nothing below a symlink ⇒ only reordering); normalised absolute locations satisfy the "
+              "path hypotheses PathOK and LocNorm of all these theorems (pathok_normalised). Outside the guard the full statement is false "
               "of the code: convert_relocates_counterexample (order dependence with symlinks recorded below symlinks), convert_passes_counterexample "
               "(len(syms)+1 passes too few with a symlink to an ancestor), convert_cycle_counterexample (non-termination) — three open findings. The "
               "hypotheses are evaluated by the Lean driver on every sampled set (relocatable_of_check) and the theorems' conclusions are then checked "
@@ -647,5 +650,4 @@ LEVEL_TEXT = ("Kernel-checked Lean 4 theorems about a model of fs/tar.py over me
               "stdlib tarfile; results compared with the executable model and with an independent live-merge oracle).")
 LEVEL_NOTE = ("Partial where named _partial: the relocation theorem needs 'no symlink entry below a symlink entry' (the code is order dependent "
               "otherwise: open finding) and 'resolution no longer than the number of symlinks'; trusted: Lean kernel, standard axioms, the tarfile "
-              "contract, path primitives (normpath, dirname, the prefix test and offset rewrite of contentsSet) as re-expressed, PathOK on normalised "
-              "locations (sampled).")
+              "contract, path primitives (normpath, dirname, the prefix test and offset rewrite of contentsSet) as re-expressed.")
